@@ -368,6 +368,7 @@ static std::vector<Cfg> dbd_grid()
   for (auto & n : catalog::dbd_published()) {
     auto it = REF_DBD.find(n); int maxl = it == REF_DBD.end() ? 0 : (int)it->second.levelE.size() - 1;
     for (int lev = 0; lev <= maxl; lev++) for (int m = 1; m <= 20; m++) { Cfg c; c.kind = "dbd"; c.name = n; c.level = lev; c.mode = m; v.push_back(c); }
+    if (getenv("BXDECAY0_DBD_GA_DATA_DIR") && (n == "Se82" || n == "Mo100" || n == "Cd116" || n == "Nd150")) for (int m = 21; m <= 24; m++) { Cfg c; c.kind = "dbd"; c.name = n; c.level = 0; c.mode = m; v.push_back(c); }
   }
   return v;
 }
@@ -413,7 +414,7 @@ static int run_c03_c04(Ctx & cx, const Args & a)
   for (auto & c : grid) {
     size_t my = idx++;
     uint64_t h = mix(seed, my * 2654435761ULL + (is04 ? 4 : 3));
-    bool take = thorough ? true : ((c.level == 0 && h % 2 == 0) || h % 4 == 0);
+    bool take = thorough ? true : ((c.level == 0 && h % 2 == 0) || h % 4 == 0 || c.mode > 20);
     if (!take) continue;
     if (!mine()) continue;
     run_config(cx, c, seed, nev, is04, "none");
